@@ -9,7 +9,7 @@ PROP = dict(
                "transaction and as stored, which must be null-free) and the stored revision snapshots are compared with a nested-map model "
                "(base snapshot + ordered write log, commit = log merged into the latest committed tree). Sampled histories of bounded length: "
                "a pass is absence of counterexamples in the sample.",
-    level_note="Trusts the harness's reference model, which is validated in every run against the 24 documented example scripts of "
+    level_note="Trusts the harness's reference model, which is validated in every run against the documented example scripts of "
                "transaction_test.go (setGetTests) without involving the code under test. Interleavings are sequential under the state lock "
                "(as required by the API); goroutine-level races on one Transaction are not explored. No external (virtual) configuration is "
                "registered. Corners the documentation leaves open are not claimed: Set through a base non-map already replaced by the "
@@ -29,6 +29,6 @@ PROP = dict(
     engines=[
         gt("examples", "overlord/configstate/config", "TestVerifC29Examples", dict(shards=1), dict(shards=1), rapid=False),
         gt("histories", "overlord/configstate/config", "TestVerifC29Histories",
-           dict(checks=1300, shards=4), dict(checks=100000, shards=16)),
+           dict(checks=1300, shards=4), dict(checks=50000, shards=16)),
     ],
 )
